@@ -194,7 +194,9 @@ class FalsyStrictUndefined(StrictUndefined):
         return False
 
     def __eq__(self, other: object) -> bool:
-        return other is False
+        # The same as the default undefined type, so a render that succeeds
+        # produces the same output.
+        return isinstance(other, Undefined) or other is None
 
 
 def is_undefined(obj: object) -> TypeGuard[Undefined]:
